@@ -379,7 +379,11 @@ def rule_release(m, rep, rid='R4'):
                 leaks.append((b, bi))
     rep.ob(rid, 'no-leak-primitives', not leaks, leaks[0][0].where(leaks[0][1]) if leaks else '',
            'no forget/into_raw/leak/ManuallyDrop in the module' if not leaks else 'ownership is bypassed (forget/into_raw/leak)')
-    statics = [c for c in cad.consts.values() if 'Static' in c['kind'] and 'queuing' in c['path']]
+    # (a plain flag or counter in a static / thread_local owns nothing: only types that can hold a sink, a worker or a boxed
+    # function count)
+    statics = [c for c in cad.consts.values() if 'Static' in c['kind'] and 'queuing' in c['path'] and
+               any(k_ in c.get('ty', '') for k_ in ('Arc<', 'Box<', 'dyn ', 'Vec<', 'Option<', 'Mutex<', 'RefCell<', m.worker, Q, 'Sender', 'Receiver'))
+               and not c.get('ty', '').replace(' ', '').endswith(('Cell<bool>', 'Cell<usize>', 'Cell<u64>'))]
     rep.ob(rid, 'no-static-owner', not statics, '', 'no static in the module can own a sink')
     # build: Arc::new(sink) ends up only in the handle and in the task closure
     T = Terms(m.build)
@@ -701,6 +705,30 @@ def rule_task_own_panics(m, rep, rid='R3'):
            'inside the task only the wrapped sink / the user handler can panic' if not bad else
            'the task itself can panic at %s: once a panic of the wrapped sink has poisoned/invalidated that state, every later metric '
            'is consumed by a new panic instead of being delivered' % [x[1] for x in bad][:2])
+
+
+def rule_loop_own_panics(m, rep, rid='R3'):
+    """The worker loop itself (run() with its private helpers, the task call left out) has no panic site of its own: a panic
+    there is counted as a panic of the wrapped sink and consumes a metric the wrapped sink never saw."""
+    from .c20 import PANIC_CALLS, NOT_PANIC
+    rb = inl(m.cad, m.run, never=lambda x: x.path == m.task_closure.path)
+    bad = []
+    for bi, blk in enumerate(rb.blocks):
+        if blk['cleanup'] or blk.get('dead'):
+            continue
+        t = blk['term']
+        if t['k'] == 'assert' and not t['msg'].startswith(('Misaligned', 'NullPointer')):
+            bad.append((bi, 'assert:' + t['msg']))
+        elif t['k'] == 'call':
+            k = strip_generics(t.get('callee_full', ''))
+            if any(k == n_ or k.endswith(n_) for n_ in NOT_PANIC):
+                continue
+            if any(k == n_ or k.endswith(n_) for n_ in PANIC_CALLS):
+                bad.append((bi, 'call:' + k))
+    rep.sites(len(rb.blocks))
+    rep.ob(rid, 'loop-has-no-panic-site-of-its-own', not bad, rb.where(bad[0][0]) if bad else rb.where(),
+           'inside the worker loop only the task can panic' if not bad else
+           'the worker loop itself can panic at %s: the sentinel books it as a panic of the wrapped sink and the metric is lost' % [x[1] for x in bad][:2])
 
 
 def rule_panics_getter(m, rep, rid='R4'):
